@@ -93,6 +93,11 @@ package io
 //@   modifies o.off, pos(o)
 //@   ghost before return: pos(o) := o.off
 
+//@ func (*offsetReadSeeker).ReadAt
+//@   implements (io.ReaderAt).ReadAt except full_ok
+//@   note full_ok is not claimed: an empty read at a negative offset reports io.EOF
+//@   assume sane_origin: o.base >= 0
+
 //@ func (*offsetReadSeeker).ReadByte
 //@   implements (io.ByteReader).ReadByte
 //@   modifies o.off, pos(o)
